@@ -39,10 +39,11 @@ TRUSTED_BASE = [
     "CPython executes one source line of one thread between two settrace line events when only one thread is runnable",
 ]
 ASSUMPTIONS = [
-    "liveness proper (a waiting writer is *eventually* admitted) needs scheduler fairness and is partial; proved for every "
-    "interleaving: some thread is always enabled while anyone is unfinished (deadlock_free), the token holder and the lock "
-    "holder are never blocked (token_holder_enabled, lock_hold_bounded), and a waiter at queue position k is exactly the "
-    "(|admitted|+|token holder|+k)-th admission, not earlier and with nobody else in between (bounded_bypass)",
+    "liveness is proved under an explicit bounded-fairness hypothesis (a started, enabled thread is passed over at most k "
+    "times between two of its steps): eventually_admitted gives admission within 360*(d+1)*(k+1)^2 steps (d = admissions "
+    "still needed), readers_wait_free gives a reader's completion within 108*(k+1)^2 steps whatever the writers do; plain weak "
+    "fairness is insufficient because threading.Lock is not FIFO; the liveness half of the threading contract (acquire of a "
+    "free lock and wait on a set event return) is assumed, not modelled",
     "the trace validation runs the model's silent steps (event=None, the admission test, _setup_version reads, the body, "
     "prune) lazily right before the thread's next visible step; the theorems quantify over every placement of them",
     "version pruning is outside this model (C11); the implementation's deque is compared through its last element",
@@ -55,12 +56,13 @@ LEVEL = {
             "that touches the lock, an event or a guarded field; any number of threads; any interleaving): inductive "
             "invariants for lock/transaction mutual exclusion, uniqueness and validity of the wake-up token, exactness "
             "of the waiter queue, FIFO admission, absence of deadlock (some thread enabled while anyone is unfinished), "
-            "serial equivalence of the final zone, readers blocked only by bounded lock holds and seeing whole commits. "
+            "serial equivalence of the final zone, readers blocked only by bounded lock holds and seeing whole commits, and, under "
+            "bounded fairness, admission of every waiting writer and completion of every reader within explicit step bounds. "
             "The model is tied to the code by trace validation under a deterministic scheduler with line-level "
             "preemption: every visible implementation step must be an enabled model step reaching the same shared state.",
     "note": "Trusted: Lean kernel + propext/Classical.choice/Quot.sound; statements in lean/Props/C12.lean; the scheduler "
             "and threading shim (harness/sched.py), the record/diff observer and the schedule generators (random + "
-            "bounded/exhaustive DFS bound the tie); the threading contract. Fairness-dependent liveness is partial.",
+            "bounded/exhaustive DFS bound the tie); the threading contract; the fairness hypothesis of the liveness theorems.",
     "technique": "Lean 4 proof (inductive invariants over a transition system) + trace validation of real threads under a "
                  "deterministic scheduler",
     "design_ref": "DESIGN.md §7 C12",
@@ -549,7 +551,7 @@ def run(ctx: Ctx):
     exhaustive(ctx, ["wca", "wca"], "sync", 400)
     exhaustive(ctx, ["wca", "wra"], "sync", 400)
     exhaustive(ctx, ["wca", "wca"], "line", 2000)
-    generate(ctx, ctx.n(3000, 10000), rng)
+    generate(ctx, ctx.n(3000, 7000), rng)
     malformed(ctx, rng.fork(3), ctx.n(60, 600))
     if ctx.tier == "thorough":
         # exhaustive at line granularity (every interleaving of the source lines of the anchored functions; a state
@@ -561,7 +563,7 @@ def run(ctx: Ctx):
         exhaustive(ctx, ["wca", "wca", "wca"], "line", 40000)
         exhaustive(ctx, ["wca", "wca", "rd"], "line", 60000)
         # beyond the exhaustive scopes: 4 writers, at most 2 preemptive switches, lock/event granularity
-        exhaustive(ctx, ["wca", "wra", "wca", "wca"], "sync", 3000, bound=2, use_keys=False)
+        exhaustive(ctx, ["wca", "wra", "wca", "wca"], "sync", 2000, bound=2, use_keys=False)
 
 
 def search(ctx: Ctx):
